@@ -64,7 +64,7 @@ def run_c20(tier, seed):
     pid = 'C20'
     d = out_dir('c20')
     lists, by_cat = c20_lists(tier, seed)
-    allocs = ['std', 'stateful'] if tier == 'quick' else ['std', 'pmr', 'stateful', 'propagating']
+    allocs = ['std', 'stateful'] if tier == 'quick' else ['std', 'pmr', 'stateful', 'propagating', 'final']
     # clang++ 14 -std=c++20 is left out: it cannot compile libstdc++ 12's <ranges> machinery that the library switches
     # to under __cpp_lib_ranges (errors inside bits/iterator_concepts.h for every list) - a toolchain pairing problem,
     # not a property of the library; the repository's own C++20 targets are built with g++
@@ -76,7 +76,7 @@ def run_c20(tier, seed):
     for i, c in enumerate(lists):
         kinds = list(allocs)
         if tier == 'quick':
-            kinds.append(['pmr', 'propagating'][i % 2])
+            kinds.append(['pmr', 'propagating', 'final'][i % 3])
         for ak in kinds:
             for tc in toolchains:
                 jobs.append((c, ak, tc))
@@ -130,7 +130,7 @@ def run_c20(tier, seed):
                 f.write('\n'.join('# ' + l for l in log.splitlines()[:60]) + '\n')
             violations.append((c['name'] + '/' + ak + '/' + name, 'C20.ill_formed_operation', core.save_violation_replay(pid, rp)))
     cov = {'evaluations': cells, 'distinct_nontrivial': len(nontrivial),
-           'rule': 'generated instantiation matrix: operation (%d documented operations incl. every constructor form, copy/move, emplace_back with ranges/iterators/move_iterators, erase, reserve, swap, 6 comparisons x vector/reference/element, iteration, structured bindings of reference/const_reference/element/const element, reference<->element assignments, element constructors/assignments/swap) x parameter list (curated lists of every category + seeded random lists) x allocator kind (std::allocator, pmr::polymorphic_allocator, stateful, propagating) x toolchain; a requirement predicate over the value types (copyability, D13) says which cells must compile; oracle: the compiler (-fsyntax-only); failing groups are bisected to single operations. NON-TRIVIAL: a required cell on a list the repository\'s suite does not use or with an allocator kind it never instantiates. DISTINCT: (list, allocator, operation).' % max(len(t) for _, t, _, _ in results),
+           'rule': 'generated instantiation matrix: operation (%d documented operations incl. every constructor form, copy/move, emplace_back with ranges/iterators/move_iterators, erase, reserve, swap, 6 comparisons x vector/reference/element, iteration, structured bindings of reference/const_reference/element/const element, reference<->element assignments, element constructors/assignments/swap) x parameter list (curated lists of every category + seeded random lists) x allocator kind (std::allocator, pmr::polymorphic_allocator, stateful, propagating, an empty allocator class declared final) x toolchain; a requirement predicate over the value types (copyability, D13) says which cells must compile; oracle: the compiler (-fsyntax-only); failing groups are bisected to single operations. NON-TRIVIAL: a required cell on a list the repository\'s suite does not use or with an allocator kind it never instantiates. DISTINCT: (list, allocator, operation).' % max(len(t) for _, t, _, _ in results),
            'samples': samples or [{'note': 'all units failed'}], 'units': len(jobs), 'lists': len(lists),
            'categories': {k: len(v) for k, v in by_cat.items()}, 'cells_not_required': not_required,
            'toolchains': [' '.join(t) for t in toolchains], 'allocator_kinds': sorted({j[1] for j in jobs}),
